@@ -33,13 +33,47 @@ THEOREMS = ["AurelVerif.C06." + t for t in (
     "dtgammaup3_is_dt", "dtphi_bssnok_is_dt", "dtgammadown3_bssnok_is_dt", "A2_bssnok_closed", "dtKtrace_is_dt_trace")] + [
     "AurelVerif.C06Deriv." + t for t in ("sandwich3", "inv_deriv", "dt_inverse_metric", "Deriv.det3", "deriv_of_inverse",
                                          "dt_logdet", "dt_conformal_metric", "A2_closed", "dt_trace_K")]
+# extension modules (Layer B for dtAdown3_bssnok / dts_Gamma_bssnok; constraints from Einstein's equations modulo Gauss-Codazzi)
+EXTRA = [
+    ("AurelVerif.Props.C06b",
+     ["AurelVerif.C06." + t for t in (
+         "dtATildeVac_eq", "dtAdown3_bssnok_is_dt_conformal", "dtAdown3_bssnok_vacuum_is_dt_conformal",
+         "dtAdown3_bssnok_via_dtKtrace", "deriv_trace", "deriv_Atilde", "dtAdown3_bssnok_is_dt",
+         "dtAdown3_bssnok_vacuum_is_dt")]
+     + ["AurelVerif.C06Deriv." + t for t in (
+         "Deriv.third", "contract_GU", "contract_UG", "trace_UG", "AUA_closed", "trace_KUK", "lie_weighted_conformal",
+         "dt_minus_lie_trace", "dtA_assemble", "dt_Atilde")]),
+    ("AurelVerif.Props.C06c",
+     ["AurelVerif.C06." + t for t in (
+         "nup4_succ", "gammaup4_succ", "normalOK_of_code", "rhoN_einstein_eq", "fluxN_einstein_eq", "fluxN_spatial",
+         "Hamiltonian_eq_Gnn", "Hamiltonian_zero_of_einstein", "Hamiltonian_vacuum_zero_of_einstein",
+         "Momentumup3_eq_Gni", "Momentumup3_zero_of_einstein", "Momentumup3_vacuum_zero_of_einstein",
+         "momentum_div_lowered", "constraints_zero_of_einstein", "exGC_normalOK", "exGC_gaussCodazzi", "exGC_ricci",
+         "exGC_ricciS", "exGC_einstein")]
+     + ["AurelVerif.C06Gauss." + t for t in (
+         "sum4_swap", "antisym_contract_zero", "restrict2", "double_contract", "einstein_nn", "contracted_gauss",
+         "gauss_scalar", "contracted_codazzi", "codazzi_normal_of_coord", "mom_div_lowered")]),
+    ("AurelVerif.Props.C06d",
+     ["AurelVerif.C06." + t for t in (
+         "s_Gamma_bssnok_def", "Aup3_closed", "dtgammaup3_bssnok_is_dt", "D_of_dtgammaup3_bssnok",
+         "dt_s_Gamma_bssnok_2823", "dts_Gamma_bssnok_is_dt", "dts_Gamma_bssnok_vacuum_is_dt", "s_Gamma_udd3_bssnok_rel",
+         "Aup3_traceless", "momentum_conformal", "momc_of_Momentum_zero")]
+     + ["AurelVerif.C06Deriv." + t for t in (
+         "Deriv.const_mul", "Deriv.two_thirds", "dt_conformal_inverse_metric", "dt_GammaVec_jets", "Gamma_contract_A",
+         "Gamma_trace", "mom_conformal")]),
+]
 NEEDED = ["Hamiltonian", "Momentumup3", "Momentumx", "Momentumy", "Momentumz", "dtKtrace", "dtphi_bssnok", "dtgammaup3",
           "dtgammadown3_bssnok", "dtAdown3_bssnok", "dts_Gamma_bssnok", "rho_n", "fluxup3_n", "Stressup3_n",
           "Stressdown3_n", "Stresstrace_n", "Lie_beta_scalar", "Lie_beta_s_uu", "Lie_beta_w_s_dd", "s_covd_uu", "trace3",
-          "tracefree3", "gammaup3", "gammadet", "Ktrace", "Kup3", "Adown3", "gammaup4", "nup4"]
+          "tracefree3", "gammaup3", "gammadet", "Ktrace", "Kup3", "Adown3", "gammaup4", "nup4",
+          "Aup3", "s_Gamma_bssnok", "s_Gamma_udd3_bssnok", "gup4", "gdown4", "ndown4", "betadown3", "betamag", "gtt"]
 LEAN_FILES = ["AurelVerif/Props/C06.lean", "AurelVerif/Lemmas/C06Deriv.lean", "AurelVerif/Spec/ADM.lean",
               "AurelVerif/Spec/Covd.lean", "AurelVerif/Props/C09.lean", "AurelVerif/Props/C08.lean",
-              "AurelVerif/Gen/CoreKeys.lean", "AurelVerif/Gen/CoreCurv.lean", "AurelVerif/Gen/CoreHelpers.lean"]
+              "AurelVerif/Gen/CoreKeys.lean", "AurelVerif/Gen/CoreCurv.lean", "AurelVerif/Gen/CoreHelpers.lean",
+              "AurelVerif/Props/C06b.lean", "AurelVerif/Props/C06c.lean", "AurelVerif/Props/C06d.lean",
+              "AurelVerif/Lemmas/C06DtA.lean", "AurelVerif/Lemmas/C06Gauss.lean", "AurelVerif/Lemmas/C06Mom.lean",
+              "AurelVerif/Lemmas/C06DtGamma.lean", "AurelVerif/Spec/GaussCodazzi.lean", "AurelVerif/Spec/Curvature.lean",
+              "AurelVerif/Lemmas/C04Gup.lean", "AurelVerif/Lemmas/C04Blocks.lean"]
 
 KAPPA = 8 * np.pi
 PRIMS = ["al", "b0", "b1", "b2", "g00", "g01", "g02", "g11", "g12", "g22"]
@@ -48,6 +82,12 @@ MULTI = [()] + [(i,) for i in range(4)] + [(i, j) for i in range(4) for j in ran
 KEYS = [("Hamiltonian", None), ("Momentumup3", None), ("dtKtrace", "dt_Ktr"), ("dtphi_bssnok", "dt_phi"),
         ("dtgammaup3", "dt_gu"), ("dtgammadown3_bssnok", "dt_gt"), ("dtAdown3_bssnok", "dt_At"),
         ("dts_Gamma_bssnok", "dt_Gam")]
+# quantities requested BEFORE the constraints / dt-keys in a random history (none of them may change a later result)
+WARMUP = ["s_Riemann_uddd3", "s_Riemann_down3", "s_Gamma_udd3", "s_Ricci_down3", "s_RicciS", "Kup3", "Ktrace",
+          "gammaup3", "gammadet", "Adown3", "Aup3", "A2", "st_Gamma_udd4", "rho_n", "fluxup3_n", "fluxdown3_n", "Stressdown3_n",
+          "Stressup3_n", "Stresstrace_n", "gdown4", "gup4", "gammadown3_bssnok", "gammaup3_bssnok", "Adown3_bssnok", "Aup3_bssnok",
+          "psi_bssnok", "phi_bssnok", "s_Gamma_udd3_bssnok", "s_Gamma_bssnok", "s_Ricci_down3_bssnok", "s_Ricci_down3_phi",
+          "st_Riemann_down4", "st_Ricci_down4", "st_RicciS", "Kretschmann", "Tup4", "Ttrace", "betadown3", "nup4", "ndown4"]
 
 
 # ----------------------------------------------------------------------------- exact solutions (sympy)
@@ -337,7 +377,16 @@ def case_run(ctx, spec):
                 ctx.obligation("oracle self-test: the oracle's Einstein tensor vanishes on the Kerr-Schild metric",
                                gres < 1e-9, "max |G_mu_nu| = %.2e" % gres, kind="oracle-selftest")
             sc = scales(E, spec["Lambda"])
-            for key, exk in KEYS:
+            # request history: a few other quantities first, then the eight keys in a shuffled order, so that the
+            # 'already cached' alternatives of the intermediate quantities (s_Ricci_down3 from a cached Riemann
+            # tensor, Ktrace from Kup3, ...) are exercised as well; the same history at both resolutions
+            hrng = np.random.default_rng(spec["gen_seed"] + 7919 * order)
+            warm = [str(k) for k in hrng.choice(WARMUP, size=int(hrng.integers(0, 5)), replace=False)]
+            for wk in warm:
+                rel[wk]
+            ctx.count("warmup_requests", len(warm))
+            order_keys = [KEYS[i] for i in hrng.permutation(len(KEYS))]
+            for key, exk in order_keys:
                 got = np.asarray(rel[key])
                 exact = E[exk] if exk else np.zeros_like(got)
                 dif = box(got - exact, N)
@@ -385,6 +434,84 @@ def witnesses(ctx):
                 found += ctx.violation("%s: deviation %.3g (fd_order %d)" % (what, err, order),
                                        {"kind": "input", "oracle": what, "key": key, "witness": True, "fd_order": order},
                                        {"site": key, "oracle": what})
+    return found
+
+
+def cone_alternatives(index):
+    """(key, present set) of every alternative, recorded by the translator from the CURRENT source, of every quantity
+    in the dependency cone of the eight C06 keys"""
+    deps, alts = {}, {}
+    for i in index:
+        if i.get("status") != "ok":
+            continue
+        deps.setdefault(i["key"], set()).update(i["deps"])
+        for ps in i["present_sets"]:
+            alts.setdefault(i["key"], set()).add(tuple(sorted(ps)))
+    cone, todo = set(), [k for k, _ in KEYS]
+    while todo:
+        k = todo.pop()
+        if k in cone:
+            continue
+        cone.add(k)
+        todo += [d for d in deps.get(k, ()) if d not in cone]
+    out = []
+    for k in sorted(cone):
+        for ps in sorted(alts.get(k, ())):
+            if ps:
+                out.append((k, list(ps)))
+    return out
+
+
+def history_pass(ctx, index):
+    """Every alternative ('X already in the cache') of every intermediate quantity must leave the constraints and the
+    dt-quantities where a fresh instance puts them, up to the discretisation error: for each alternative recorded by the
+    translator, the keys of its presence set are requested first, then the eight keys; the deviation from the fresh values
+    may not exceed 30 x the fresh values' own error against the exact solution (sympy oracle), or round-off."""
+    import aurel
+    found = 0
+    alts = cone_alternatives(index)
+    seen, hist = set(), []
+    for k, ps in alts:
+        if tuple(ps) not in seen:
+            seen.add(tuple(ps))
+            hist.append((k, ps))
+    ctx.cov["history_pass_alternatives"] = len(hist)
+    gen_seed = ctx.rng.randrange(10 ** 6)
+    for vacuum in (False, True):
+        rng = np.random.default_rng(gen_seed)
+        if vacuum:
+            a, b, g = kerr_schild_moving(rng)
+        else:
+            a, b, g = random_gauge_solution(rng, shift=True)
+        geom = (1.0, tuple(rng.uniform(-0.6, -0.4, size=3)), tuple(rng.uniform(0.9, 1.1, size=2)))
+        t0, Lam, N, order = float(rng.uniform(0.0, 1.0)), (0.0 if vacuum else 0.6), 12, 4
+        ex = Exact(a, b, g)
+        fresh, tol = {}, {}
+        for key, exk in KEYS:
+            rel, E, fd = run_code(ex, N, order, t0, vacuum, Lam, geom)
+            fresh[key] = np.asarray(rel[key]).copy()
+            exact = E[exk] if exk else np.zeros_like(fresh[key])
+            sc = scales(E, Lam)[key]
+            tol[key] = max(30 * float(np.max(np.abs(box(fresh[key] - exact, N)))), 1e-9 * sc)
+        for k, ps in hist:
+            rel, E, fd = run_code(ex, N, order, t0, vacuum, Lam, geom)
+            try:
+                for q in ps:
+                    if q in aurel.descriptions:
+                        rel[q]
+            except Exception as exn:  # noqa
+                ctx.count("history_pass_unrequestable")
+                continue
+            for key, _ in KEYS:
+                ctx.count("history_pass_evaluations")
+                dev = float(np.max(np.abs(box(np.asarray(rel[key]) - fresh[key], N))))
+                if not dev <= tol[key]:
+                    found += ctx.violation(
+                        "%s after requesting %s first (alternative of %s) differs from a fresh instance by %.3g > %.3g "
+                        "(30 x discretisation error), vacuum=%s" % (key, ps, k, dev, tol[key], vacuum),
+                        {"kind": "history", "key": key, "requested_first": ps, "alternative_of": k, "vacuum": vacuum,
+                         "gen_seed": gen_seed, "deviation": dev, "tolerance": tol[key]},
+                        {"site": key, "oracle": "history-independence", "alternative_of": k})
     return found
 
 
@@ -441,9 +568,11 @@ def run(ctx):
     r = corecheck.regen_and_validate(ctx, NEEDED)
     if r is not None and not ctx.broken():
         ctx.prove(MODULE, THEOREMS, timeout=2400)
+        for mod, thms in EXTRA:
+            ctx.prove(mod, thms, timeout=2400)
         ctx.forbidden_scan(LEAN_FILES)
         if ctx.tier == "thorough":
-            ctx.leanchecker([MODULE])
+            ctx.leanchecker([MODULE] + [m for m, _ in EXTRA])
     extra = 1 if ctx.broken() else 0
     if ctx.tier == "thorough":
         specs = specs_for(ctx, 8 + extra, 3, (2, 4, 6), 16)
@@ -451,6 +580,8 @@ def run(ctx):
         specs = specs_for(ctx, 1 + extra, 1, (4, 6), 16)
     with np.errstate(all="ignore"):
         search(ctx, specs)
+        if r is not None:
+            history_pass(ctx, r[2])
     ctx.cov["search_space"] = ("smooth 3+1 fields a0 + a1 sin(k.x + w t + p) for lapse, shift and the 6 metric components (random k, w, p), "
                                "Lambda in +-[0.3,1] / 0 / -0.8; Kerr-Schild Schwarzschild in moving coordinates (vacuum=True and vacuum=False "
                                "with T=0); fd_order 4, 6 (thorough: 2, 4, 6); N = 16 -> 32; one-sided boundary stencils, central sub-box compared")
